@@ -387,8 +387,9 @@ pub fn procmsg_stream(seed: u64, cases: usize, ex: &mut ChildExec) -> Sink {
     };
     for _ in 0..cases {
         let s = *rng.pick(&[32usize, 64, 64, 64]);
-        // a custom hasher answering for code 0x99 (ok), 0x98 (custom error), 0x97 (fatal)
-        let spec = if rng.chance(1, 2) { "153:o,152:c,151:f" } else { "" };
+        // a custom hasher answering for code 0x99 (ok), 0x98 (custom error), 0x97 (fatal), and 0x96
+        // (picky: refuses data starting with 0xee with a custom error, hashes everything else)
+        let spec = if rng.chance(1, 2) { "153:o,152:c,151:f,150:p" } else { "" };
         let mut base = Message::default();
         let mut exp_blocks: Vec<(CidGeneric<64>, Vec<u8>)> = vec![];
         let mut exp_pres: Vec<(CidGeneric<64>, i32)> = vec![];
@@ -407,6 +408,18 @@ pub fn procmsg_stream(seed: u64, cases: usize, ex: &mut ChildExec) -> Sink {
             exp_blocks.push((cid, data.clone()));
             base.payload.push(Block { prefix: [uvarint(1), uvarint(0x55), uvarint(0x99), uvarint(9)].concat(), data });
             sink.count("procmsg.custom-hasher-block");
+        }
+        if !spec.is_empty() && rng.chance(1, 2) {
+            // blocks the picky hasher accepts: a refused block of the same code elsewhere in the
+            // message (inserted below at every position) must not hide them
+            for _ in 0..1 + rng.below(2) {
+                let mut data = rng.bytes(4);
+                data[0] &= 0x7f;
+                let cid = CidGeneric::<64>::new_v1(0x55, Multihash::<64>::wrap(0x96, &fake_digest(1, &data)).unwrap());
+                exp_blocks.push((cid, data.clone()));
+                base.payload.push(Block { prefix: [uvarint(1), uvarint(0x55), uvarint(0x96), uvarint(9)].concat(), data });
+            }
+            sink.count("procmsg.picky-hasher-good-block");
         }
         if nb > 0 && rng.chance(1, 5) {
             // duplicate payload inside one message
@@ -443,7 +456,7 @@ pub fn procmsg_stream(seed: u64, cases: usize, ex: &mut ChildExec) -> Sink {
         }
         // one bad element at every position
         for pos in 0..=base.payload.len() {
-            let kind = rng.below(7);
+            let kind = if !spec.is_empty() && rng.chance(1, 4) { 7 } else { rng.below(7) };
             let mut m = base.clone();
             let (bad, oracle): (Block, String) = match kind {
                 0 => (Block { prefix: [uvarint(1), uvarint(0x55), uvarint(0x77), uvarint(32)].concat(), data: rng.bytes(3) }, base_out.clone()), // unknown code: skipped
@@ -452,6 +465,8 @@ pub fn procmsg_stream(seed: u64, cases: usize, ex: &mut ChildExec) -> Sink {
                 3 => (Block { prefix: vec![0x01, 0x55], data: rng.bytes(3) }, "fatal".into()), // unparsable prefix
                 4 => (Block { prefix: [uvarint(1), uvarint(0x55), uvarint(0x12), uvarint(s as u64 + 1)].concat(), data: rng.bytes(3) }, "fatal".into()), // oversize declared digest
                 5 => (Block { prefix: vec![0x02, 0x55, 0x12, 0x20], data: rng.bytes(3) }, "fatal".into()), // bad version
+                // refused by the picky hasher because of its data: only this block is skipped
+                7 => (Block { prefix: [uvarint(1), uvarint(0x55), uvarint(0x96), uvarint(9)].concat(), data: [vec![0xee], rng.bytes(2)].concat() }, base_out.clone()),
                 _ => (Block { prefix: vec![], data: rng.bytes(3) }, "fatal".into()),
             };
             m.payload.insert(pos, bad);
